@@ -539,6 +539,23 @@ func genC05(rng *rand.Rand) *c05Script {
 	if rng.IntN(4) == 0 {
 		sc.SlowCallbackUS = 50 + rng.IntN(1500)
 	}
+	if rng.IntN(60) == 0 {
+		// a long life: hundreds of events through a dozen reconnections
+		for k := 0; k < 10+rng.IntN(8); k++ {
+			sc.Ops = append(sc.Ops, c05Op{Kind: "pub", N: 20 + rng.IntN(40), Pace: rng.IntN(30)})
+			switch rng.IntN(3) {
+			case 0:
+				sc.Ops = append(sc.Ops, c05Op{Kind: "cut_bytes", N: rng.IntN(200)})
+			case 1:
+				sc.Ops = append(sc.Ops, c05Op{Kind: "cut_next", N: rng.IntN(400)})
+			default:
+				sc.Ops = append(sc.Ops, c05Op{Kind: "caughtup"}, c05Op{Kind: "cut_idle"})
+			}
+		}
+		sc.Ops = append(sc.Ops, c05Op{Kind: "pub", N: 5}, c05Op{Kind: "caughtup"})
+		sc.MaxRetries = 0
+		return sc
+	}
 	if rng.IntN(4) == 0 {
 		sc.Pad = 40 + rng.IntN(100)
 		sc.Ops = append(sc.Ops, c05Op{Kind: "pub", N: 30 + rng.IntN(50)}, c05Op{Kind: "caughtup"}, c05Op{Kind: "cut_bytes", N: 5 + rng.IntN(sc.Pad)}, c05Op{Kind: "pub", N: 2 + rng.IntN(4)}, c05Op{Kind: "caughtup"})
